@@ -659,6 +659,8 @@ def cli_index(chk, repo):
     where = f"{cm.relpath}:create_cache"
     HH, HV = "IMG-HH-ALOS2012345678-160229-UBSL1.1__D", "IMG-HV-ALOS2012345678-160229-UBSL1.1__D"
 
+    enc_extra = []
+
     def run(target, broken=()):
         W = World(repo)
         prod = ("data", "product")
@@ -679,6 +681,8 @@ def cli_index(chk, repo):
 
         def encode(I_, a, kw):
             g = a[0] if a else None
+            if len(a) > 1 or kw:
+                enc_extra.append((list(a[1:]), dict(kw)))
             return Obj("Text", OrderedDict(of=g.fields.get("of") if isinstance(g, Obj) else Const(None)))
         sc.vars["open_image"] = Fn("py", impl=open_image, name="open_image")
         sc.vars["caching"] = Obj("caching", OrderedDict(encode=Fn("py", impl=encode, name="encode")))
@@ -706,3 +710,16 @@ def cli_index(chk, repo):
                         key="cli:directory")
     except (ShapeError, NonTermination, RecursionError) as e:
         raise AnalysisError(f"{where}: cannot be evaluated on the model directory: {str(e)[:160]}")
+    if enc_extra:
+        # the tool hands caching.encode more than the group: an index written that way must still be read like one the library writes
+        # (the codec composed with itself, encode called the way the tool calls it, decode asked for another records_per_chunk)
+        from ..codecmodel import judge as codec_judge, run_roundtrip
+        extra = enc_extra[0]
+        if not all(isinstance(v, Const) for v in list(extra[0]) + list(extra[1].values())):
+            raise AnalysisError(f"{where}: caching.encode is given further arguments that are not constants in the model ({extra!r:.80}); not decided")
+        R = run_roundtrip(repo, rpc=3, encode_extra=extra)
+        for key, ok, good, bad in codec_judge(R, "HH_scan3", 3):
+            if ok is None:
+                raise AnalysisError(f"{where}: the round trip of an index written the way the tool writes it cannot be evaluated: {str(bad)[:160]}")
+            chk.require(ok, "C07-N4", where, f"an index written with encode(group, {', '.join(extra[1]) or '...'}) reads like the library's own: {key}",
+                        f"the tool calls caching.encode(group, {', '.join(f'{k}={v.v!r}' for k, v in extra[1].items()) or '...'}); an index written that way and read with records_per_chunk=3: {bad}", key=f"cli:encode-extra:{key}")
